@@ -37,6 +37,18 @@ func runC12(opt *Options) int {
 	}
 	// Layer B leg: sibling methods with different values of an inheritable setting
 	sib := layerb.FamilySibling(opt.Thorough())
+	// a method-level arg:context:regex holds for that method only, also for functions shared with a sibling
+	for _, c := range layerb.FamilyCustom(false) {
+		if strings.Contains(c.ID, "/fieldfunc/tworegexes") || strings.Contains(c.ID, "/fieldfunc/methodctx") {
+			sib = append(sib, c)
+		}
+	}
+	// settings written where they are not allowed (whatever their value) are errors
+	for _, c := range layerb.FamilyField(true) {
+		if c.ExpectFail && (strings.Contains(c.ID, "_on_slice_method") || strings.Contains(c.ID, "_on_double_pointer_method")) {
+			sib = append(sib, c)
+		}
+	}
 	// siblings with different `enum` settings sharing an enum type (value obligations)
 	var enumSib []*layerb.Conv
 	for _, c := range layerb.FamilyEnum(false) {
